@@ -400,3 +400,21 @@ impl yui_matrix::dense::lll::LLLRing for SymInt {
         self.clone()
     }
 }
+
+impl<'a, 'b> num_traits::Pow<&'b usize> for &'a SymInt {
+    type Output = SymInt;
+    fn pow(self, n: &'b usize) -> SymInt {
+        let mut r = SymInt::constant(1);
+        for _ in 0..*n {
+            r = &r * self;
+        }
+        r
+    }
+}
+
+impl<'b> num_traits::Pow<&'b usize> for SymInt {
+    type Output = SymInt;
+    fn pow(self, n: &'b usize) -> SymInt {
+        num_traits::Pow::pow(&self, n)
+    }
+}
